@@ -84,6 +84,10 @@ pub enum StoreMode {
     /// Recording store; optional fault: (call index, kind) kind 0 = fail (refuse) call N,
     /// 1 = apply call N and then kill (panic).
     Recording,
+    /// The same recorder in front of the real in-memory store of swimos_server_app; `abandoned`:
+    /// while the first instance runs, a second request for the node store is made and dropped
+    /// unused (what the server does for every routing request to a running agent).
+    RecordingOverMem { abandoned: bool },
 }
 
 #[derive(Clone, Debug, serde::Serialize, serde::Deserialize)]
@@ -267,6 +271,9 @@ pub struct AsWorld {
     report_totals: HashMap<String, (u64, u64)>,
     quiescent_reports: Vec<(String, Option<(u64, u64, u64)>)>,
     store_log: Option<Arc<StoreLog>>,
+    plane: Option<swimos_server_app::verif_hooks::InMemoryPlanePersistence>,
+    extra_violations: Vec<(String, String)>,
+    restart_failed: bool,
     _http_tx: mpsc::Sender<swimos_api::agent::HttpLaneRequest>,
     http_responses: Vec<swimos_api::agent::HttpResponseReceiver>,
     checker: Checker,
@@ -556,8 +563,26 @@ impl AsWorld {
         let task = AgentRouteTask::new(&model, descriptor, channels, stop_rx, config, None);
         let log = self.store_log.clone().expect("restart needs a store");
         *log.fault.lock() = None;
-        let store = RecStore { log, instance: 2 };
-        let subject = Subject::new(tokio::task::unconstrained(task.run_agent_with_store(std::future::ready(Ok(store))).with_budget(NonZeroUsize::new(64).unwrap())));
+        let subject = if let Some(plane) = &self.plane {
+            // the first instance (and with it its node store) is gone
+            self.subject.kill();
+            let inner = match crate::store::acquire(plane, NODE) {
+                Some(Ok(s)) => s,
+                other => {
+                    self.extra_violations.push((
+                        "as: the node store cannot be acquired again after the first instance has gone".into(),
+                        format!("node_store({}) after the first instance was dropped: {}", NODE, match other { None => "pending".to_string(), Some(Err(e)) => format!("{:?}", e), _ => unreachable!() }),
+                    ));
+                    self.restart_failed = true;
+                    return;
+                }
+            };
+            let store = crate::store::RecOverMem { rec: RecStore { log, instance: 2 }, inner };
+            Subject::new(tokio::task::unconstrained(task.run_agent_with_store(std::future::ready(Ok(store))).with_budget(NonZeroUsize::new(64).unwrap())))
+        } else {
+            let store = RecStore { log, instance: 2 };
+            Subject::new(tokio::task::unconstrained(task.run_agent_with_store(std::future::ready(Ok(store))).with_budget(NonZeroUsize::new(64).unwrap())))
+        };
         self.second = Some(Second { subject, truth, stop_tx: Some(stop_tx), _att_tx: att_tx, _link_rx: link_rx, _http_tx: http_tx, stop_fired: false });
     }
 }
@@ -598,6 +623,7 @@ impl World for AsWorld {
         let task = AgentRouteTask::new(&model, descriptor, channels, stop_rx, config, reporting);
         let budget = NonZeroUsize::new(cfg.budget.max(1)).unwrap();
         let mut store_log = None;
+        let mut plane = None;
         let subject = if cfg.store == StoreMode::Recording {
             let log = Arc::new(StoreLog::default());
             *log.fault.lock() = cfg.store_fault.map(|(k, n)| if k == 0 { crate::store::Fault::Fail(n) } else { crate::store::Fault::KillAfter(n) });
@@ -605,6 +631,18 @@ impl World for AsWorld {
             store_log = Some(log);
             // `unconstrained`: the whole execution runs inside one poll of the block_on future, so Tokio's own
             // cooperative budget would never be reset and every Tokio resource would eventually return Pending.
+            Subject::new(tokio::task::unconstrained(task.run_agent_with_store(std::future::ready(Ok(store))).with_budget(budget)))
+        } else if let StoreMode::RecordingOverMem { abandoned } = cfg.store {
+            let log = Arc::new(StoreLog::default());
+            *log.fault.lock() = cfg.store_fault.map(|(k, n)| if k == 0 { crate::store::Fault::Fail(n) } else { crate::store::Fault::KillAfter(n) });
+            let p = swimos_server_app::verif_hooks::InMemoryPlanePersistence::default();
+            let inner = crate::store::acquire(&p, NODE).expect("first node store is ready").expect("first node store");
+            if abandoned {
+                crate::store::abandoned_request(&p, NODE);
+            }
+            let store = crate::store::RecOverMem { rec: RecStore { log: log.clone(), instance: 1 }, inner };
+            store_log = Some(log);
+            plane = Some(p);
             Subject::new(tokio::task::unconstrained(task.run_agent_with_store(std::future::ready(Ok(store))).with_budget(budget)))
         } else {
             Subject::new(tokio::task::unconstrained(task.run_agent().with_budget(budget)))
@@ -674,6 +712,9 @@ impl World for AsWorld {
             report_totals: HashMap::new(),
             quiescent_reports: vec![],
             store_log,
+            plane,
+            extra_violations: vec![],
+            restart_failed: false,
             _http_tx: http_tx,
             http_responses: vec![],
             checker: GLOBAL_CHECKER.get().copied().unwrap_or(noop_checker),
@@ -689,6 +730,9 @@ impl World for AsWorld {
     }
 
     fn enabled(&mut self) -> Vec<u32> {
+        if self.restart_failed {
+            return vec![];
+        }
         if let Some(sec) = self.second.as_mut() {
             if sec.subject.runnable() {
                 return vec![EV_POLL2];
@@ -1149,7 +1193,8 @@ impl World for AsWorld {
             ticks_done: self.ticks_done,
             dirty_advance: self.dirty_advance,
         };
-        let violations = (self.checker)(&obs);
+        let mut violations = (self.checker)(&obs);
+        violations.extend(std::mem::take(&mut self.extra_violations));
         // digest of everything observable
         let mut h: u64 = 0xcbf29ce484222325;
         let mut feed = |s: &str| {
